@@ -78,7 +78,7 @@ func checkC02(tier, replay string) int {
 		"(which knows nothing about tiers), and after every command the two fake stores are compared: L1 subset of L2 with equal value and flags. " +
 		"distinct_nontrivial = distinct (configuration, protocol, port mode, eviction mode, op-kind sequence) with a key touched twice")
 	run.Assume("evictions happen only between commands, as the statement says")
-	nseq := run.Pick(10, 150)
+	nseq := run.Pick(40, 300)
 	var cfgs []harness.ProxyCfg
 	for _, lock := range []string{"none", "mr", "sr"} {
 		cfgs = append(cfgs, harness.ProxyCfg{L2: true, L1Kind: "std", Locked: lock != "none", MultiReader: lock == "mr"})
